@@ -427,7 +427,7 @@ class Parser:
         return LogicalExpression(tok, left, operator, right)
 
     def parse_grouped_expression(self, stream: TokenStream) -> Expression:
-        stream.next_token()
+        tok = stream.next_token()
         expr = self.parse_filter_expression(stream)
         stream.next_token()
 
@@ -440,7 +440,12 @@ class Parser:
             expr = self.parse_infix_expression(stream, expr)
 
         stream.expect(TokenType.RPAREN)
-        return expr
+        self._raise_for_non_logical(expr)
+
+        # Keep track of the parentheses. A parenthesized expression is a logical
+        # expression, it is not comparable and it is not a ValueType or
+        # NodesType function argument.
+        return FilterExpression(token=tok, expression=expr)
 
     def parse_root_query(self, stream: TokenStream) -> Expression:
         root = stream.next_token()
@@ -663,8 +668,12 @@ class Parser:
     def _raise_for_non_comparable_function(
         self, expr: Expression, token: Token
     ) -> None:
-        if isinstance(expr, FilterQuery) and not expr.query.singular_query():
-            raise JSONPathTypeError("non-singular query is not comparable", token=token)
+        if isinstance(expr, FilterQuery):
+            if not expr.query.singular_query():
+                raise JSONPathTypeError(
+                    "non-singular query is not comparable", token=token
+                )
+            return
 
         if isinstance(expr, FunctionExtension):
             func = self.env.function_extensions.get(expr.name)
@@ -674,4 +683,31 @@ class Parser:
             ):
                 raise JSONPathTypeError(
                     f"result of {expr.name}() is not comparable", token
+                )
+            return
+
+        if not isinstance(expr, FilterExpressionLiteral):
+            # A parenthesized expression, a negation or another comparison.
+            raise JSONPathSyntaxError(
+                "only literals, singular queries and function calls are comparable",
+                token=expr.token,
+            )
+
+    def _raise_for_non_logical(self, expr: Expression) -> None:
+        """Raise an error if _expr_ can't be used as a logical expression."""
+        if isinstance(expr, FilterExpressionLiteral):
+            raise JSONPathSyntaxError(
+                "filter expression literals outside of "
+                "function expressions must be compared",
+                token=expr.token,
+            )
+
+        if isinstance(expr, FunctionExtension):
+            func = self.env.function_extensions.get(expr.name)
+            if (
+                isinstance(func, FilterFunction)
+                and func.return_type == ExpressionType.VALUE
+            ):
+                raise JSONPathTypeError(
+                    f"result of {expr.name}() must be compared", token=expr.token
                 )
